@@ -63,7 +63,7 @@ CLAIMS = {
                 "IBAN(text, validate_bban=True) raise outside the family; obligation: the national step comes after the "
                 "character and format steps), C05_iban_named_national (an error raised with validate_bban=True names a defect of "
                 "the text as before or - every ISO 13616 check having passed - is the national check's own error, whose meaning "
-                "is C06/C07). Found and fixed: Unicode \\d (d369466).",
+                "is C06/C07). Found and fixed: Unicode \\d (d369466). Streams include lenient-then-strict histories on the same text and the same object (memoised verdicts that ignore validate_bban).",
         "note": COMMON_NOTE,
         "technique": "Coq proof (step-guard invariant over the generated step list, exact regex classes) + data obligations + spec-oracle and correspondence streams",
         "design_ref": "DESIGN.md §4 C05",
@@ -114,7 +114,7 @@ CLAIMS = {
                 "built and checked for each of the entries by vm_compute: C17_occurs_obl), IBAN.from_bban of it is a valid IBAN, "
                 "and BBAN.bank of it is a listed entry with that code (index refinement, Proofs/BankFacts.v). The same is "
                 "exercised through the real API for every entry (thorough) / 800 entries (quick). "
-                "National-algorithm field requirements are part of C06.",
+                "C17_algorithm_fields: for every country with a registered default algorithm the fields it reads have the classes - and the non-emptiness - its arithmetic needs, and the check-digit field is absent or of the computed width (total_row_ok / shape_row_ok on every row); the stream runs generate for each such country.",
         "note": COMMON_NOTE,
         "technique": "Coq: exhaustive evaluation of decidable well-formedness predicates and of a per-entry witness over the regenerated data (forallb = true by vm_compute) + generic lookup lemma + API stream",
         "design_ref": "DESIGN.md §4 C17",
@@ -147,7 +147,7 @@ CLAIMS = {
                 "(IBAN(text, validate_bban=True) succeeds iff the cleaned text is ISO 13616-valid and the BBAN-level check returns "
                 "true) and C06_iban_level (hence, for a country whose BBAN-level check is 'rule ? true : raise', iff ISO-valid and "
                 "the published rule holds; instantiated for PL and FR). "
-                "Found and fixed: returns False on success (6f07eec), BA registered as BT (6931682).",
+                "Found and fixed: returns False on success (6f07eec), BA registered as BT (6931682). Streams include lenient-then-strict histories on the same text and the same object (memoised verdicts that ignore validate_bban).",
         "note": COMMON_NOTE + " Spec/NationalPublished.v is a hand transcription of the published rules (no network), cross-validated against the implementation on all 22 countries; Norway's '00' account rule is transcribed from the code.",
         "technique": "Coq proof (structural theorems; model = published rule for all 22 registered countries) + extracted published-rule spec as oracle + correspondence",
         "design_ref": "DESIGN.md §4 C06",
@@ -209,7 +209,7 @@ CLAIMS = {
                 "BBAN that BBAN.random returns, for all generator/rstr outputs that are clean text, by the fact that the retry loop "
                 "returns only what from_components built). Streams: "
                 "generate + validate(validate_bban=True) on component combinations of every width for the 19 countries incl. "
-                "edge digits; decompose/rebuild on spec-selected nationally valid IBANs for every country; correspondence.",
+                "edge digits; decompose/rebuild on spec-selected nationally valid IBANs for every country; correspondence. Stream generated_published: the BBAN generate builds for each of the 19 named countries is judged by the extracted published-rule specification (not by the library's own validation, which passes vacuously where no algorithm is registered).",
         "note": COMMON_NOTE + " The random producer's theorem assumes what rstr returns is clean text once upper-cased (true of matches of the country patterns).",
         "technique": "Coq proof (placement loop, check-digit agreement, rebuild) + data obligations + correspondence + spec-selected inputs",
         "design_ref": "DESIGN.md §4 C09",
